@@ -50,8 +50,6 @@ func (c *Ctx) childEmit(kind string, fields ...string) {
 	fmt.Fprintf(c.childOut, "%s%s%s\n", kind, caseSep, strings.Join(fields, caseSep))
 }
 
-
-
 // runSandboxed re-executes this binary as a child for property prop and
 // collects the streamed cases into c. onCrash builds the case term recorded
 // for a case on which the child died or hung (outcome "DFatal"/"DHang").
